@@ -452,13 +452,11 @@ Section GovProofs.
         pose proof (ext_set_role st obj (s', w)) as E1. set (st1 := set_role st obj (s', w)) in *.
         destruct (seqb ev gov_ev_register).
         { destruct (seqb next gov_ev_approve); intro H; inversion H; subst; [eapply ext_trans; [exact E1 | apply ext_usi] | exact E1]. }
-        destruct (seqb ev gov_ev_freeze || seqb ev gov_ev_activate).
-        { destruct (seqb next gov_ev_approve); [|intro H; inversion H; subst; exact E1].
-          destruct (cascade sem cfg_fixed rec st1 obj (seqb ev gov_ev_activate)) as [s2|c] eqn:Ec; [|discriminate].
-          intro H; inversion H; subst. eapply ext_trans; [exact E1|]. eapply ext_trans; [eapply cascade_ext; exact Ec | apply ext_usi]. }
-        destruct (seqb ev gov_ev_logout); [|intro H; inversion H; subst; exact E1].
-        destruct (seqb next gov_ev_reject && is_avail_status s'); [|intro H; inversion H; subst; exact E1].
-        cbn [d_logout_inc cfg_fixed]. intro H; inversion H; subst. eapply ext_trans; [exact E1 | apply ext_usi].
+        destruct (seqb ev gov_ev_freeze || seqb ev gov_ev_activate || seqb ev gov_ev_logout); [|intro H; inversion H; subst; exact E1].
+        cbn [d_logout_inc cfg_fixed].
+        destruct (Bool.eqb (is_avail_status s) (is_avail_status s')); [intro H; inversion H; subst; exact E1|].
+        destruct (cascade sem cfg_fixed rec st1 obj (is_avail_status s')) as [s2|c] eqn:Ec; [|discriminate].
+        intro H; inversion H; subst. eapply ext_trans; [exact E1|]. eapply ext_trans; [eapply cascade_ext; exact Ec | apply ext_usi].
       - destruct (m =? 1).
         + destruct (node_of st obj) as [s|]; [|discriminate].
           destruct (fire gov_node_fsm s next last) as [s'|]; [|discriminate].
@@ -621,10 +619,11 @@ Section GovProofs.
   Lemma ext_opext st st' : ext st st' -> opext st st'.
   Proof. intros H Hs. destruct (H Hs) as [A B]. split; [exact A | apply sev_sevb; exact B]. Qed.
 
-  Lemma zero_perm_ext (st : state) i st' :
-    zero_perm sem e_default cfg_fixed st i = Ok st' -> ext st st'.
+  Lemma zero_perm_ext (st : state) internal i st' :
+    zero_perm sem e_default cfg_fixed st internal i = Ok st' -> ext st st'.
   Proof.
-    unfold zero_perm. cbn [d_zero_open cfg_fixed orb].
+    unfold zero_perm. cbn [d_zero_open cfg_fixed orb negb]. rewrite andb_true_r.
+    destruct (negb internal); [discriminate|].
     destruct (get_prop st i) as [p|] eqn:Hg; [|discriminate].
     destruct (h_zero (p_hdr p) && (p_status p <? 2)) eqn:Ec; [|intro H; inversion H; apply ext_refl].
     apply andb_true_iff in Ec. destruct Ec as [_ Ec].
@@ -635,7 +634,7 @@ Section GovProofs.
 
   Lemma zero_after_ext (st : state) i st' : zero_after sem e_default cfg_fixed st i = Ok st' -> ext st st'.
   Proof.
-    unfold zero_after. destruct (zero_perm sem e_default cfg_fixed st i) as [s|c] eqn:Ez; [|discriminate].
+    unfold zero_after. destruct (zero_perm sem e_default cfg_fixed st true i) as [s|c] eqn:Ez; [|discriminate].
     intro H; inversion H; subst. eapply zero_perm_ext; exact Ez.
   Qed.
 
@@ -661,7 +660,8 @@ Section GovProofs.
     destruct (fire gov_role_fsm s ev s) as [s'|]; [|discriminate].
     apply submit_ext in Es. destruct Es as [E1 _].
     pose proof (ext_set_role st1 x (s', w)) as E2. set (st2 := set_role st1 x (s', w)) in *.
-    destruct (seqb ev gov_ev_logout && is_avail_status s').
+    cbn [d_logout_inc cfg_fixed].
+    destruct (seqb ev gov_ev_logout && is_avail_status s).
     - destruct (cascade sem cfg_fixed (conclude sem e_default cfg_fixed (fuel_of st)) st2 x false) as [s3|k] eqn:Ec; [|discriminate].
       intro H. eapply ext_trans; [exact E1|]. eapply ext_trans; [exact E2|].
       eapply ext_trans; [eapply (cascade_ext _ (conclude_good _)); exact Ec|].
@@ -1128,13 +1128,9 @@ Section GovProofs.
     step E_eqb sem e_default cfg st (OGuarded c) = (st, 1).
   Proof. reflexivity. Qed.
 
-  Theorem zero_permission_closed (st : state) c i p :
-    get_prop st i = Some p -> is_open p = false ->
-    step E_eqb sem e_default cfg_fixed st (OZero c i) = (st, 0).
-  Proof.
-    intros Hg Ho. unfold step, run, zero_perm. rewrite Hg. cbn [d_zero_open cfg_fixed orb].
-    unfold is_open in Ho. rewrite Ho, andb_false_r. reflexivity.
-  Qed.
+  Theorem zero_permission_refused (st : state) c i :
+    step E_eqb sem e_default cfg_fixed st (OZero c i) = (st, 1).
+  Proof. reflexivity. Qed.
 
   (** * Bookkeeping of the available electorate (partial): established at submission and
         preserved by a vote; its preservation across role changes is checked on every trace by
